@@ -589,6 +589,27 @@ pub fn install_panic_hook() {
                 .location()
                 .map(|l| format!("{}:{}", l.file(), l.line()))
                 .unwrap_or_default();
+            // a panic inside a dependency (tokio, papaya, zstd-safe ...) that was reached THROUGH
+            // a function of a repository crate is the repository's panic as well: look for a frame
+            // of an `anda_*` crate on the stack (symbol names survive without debug info)
+            let loc = if loc.starts_with("/repo/") || loc.contains("/repo/rs/") {
+                loc
+            } else {
+                let bt = std::backtrace::Backtrace::force_capture().to_string();
+                let through = bt
+                    .lines()
+                    .map(|l| l.trim())
+                    .filter_map(|l| l.split_once(": ").map(|(_, f)| f))
+                    .find(|f| {
+                        let f = f.trim_start_matches('<');
+                        f.starts_with("anda_") && !f.starts_with("anda_db_utils::verif")
+                    })
+                    .map(|f| f.chars().take(120).collect::<String>());
+                match through {
+                    Some(f) => format!("/repo/ (dependency panic at {loc} reached through {f})"),
+                    None => loc,
+                }
+            };
             LAST_PANIC_LOC.with(|c| *c.borrow_mut() = loc);
             if verbose {
                 prev(info);
